@@ -49,6 +49,17 @@ CLAIMED["C19"] = dict(
     technique="bounded stand-in for a function outside the verifier's reach (runtime oracle comparison, stated bound)",
 )
 
+CLAIMED["C06"] = dict(
+    text="Unbounded proof from the real AST that node_event, _cost_rec, cost, _ordered_labeling_cost, _unordered_labeling_cost, reconciliation_cost, "
+         "labeling_cost and SuperReconciliationOutput.cost equal the documented event model written as spec functions in the tree vocabulary "
+         "(event by child-subtree membership, not by lca queries; unit cost + one full loss per skipped species edge; segmental losses per lost run "
+         "via the C18 segment-distance contract, per charged edge for sets; free copy minimised at duplications, fixed at transfers), for every "
+         "well-formed (valid, total) reconciliation, tree and cost vector. Callees are used through their C17/C18 contracts.",
+    note="Trusted: pyvc encoding; z3/cvc5; tree axioms; assumed ete3 contracts (is_leaf, children, traverse pre-order covers every node once, parents first); "
+         "assumed LowestCommonAncestor core (lca / level) from C17; products of two symbolic integers abstracted in one back-end strategy (sound). "
+         "The CLI clause of the property is not decided.",
+)
+
 NOT_APPLICABLE = {
     "C14": "float layout geometry and a two-run (orientation) relation over 360 lines of dict-state code: no contract within reach decides it (DESIGN.md section 5)",
     "C09": "metamorphic / cross-process relations between runs; a functional contract speaks about one call (DESIGN.md section 5)",
